@@ -659,3 +659,7 @@ mut("C18", "r1-unpack-scope-via-join", "updater/unpacking.go",
     "if !strings.HasPrefix(dstPath, tmpDir+string(filepath.Separator)) {", "if !strings.HasPrefix(dstPath, filepath.Join(tmpDir, string(filepath.Separator))) {", ["C18-R1|updater.(*Resource).unpackZipArchive", "C18-R2|updater.(*Resource).unpackZipArchive / extract entry"], comment="round-2 seed C18-b1")
 mut("C18", "r2-ensureabs-parent-accepted", "utils/structure.go",
     "if relPath == \"..\" || strings.HasPrefix(relPath, \"..\"+string(filepath.Separator)) {", "if strings.HasPrefix(relPath, \"..\"+string(filepath.Separator)) {", "C18-R2|utils.(*DirStructure).EnsureAbsPath / ensure(relative dirs)", comment="round-2 seed C18-b2")
+mut("C19", "r7-reset-loop-leaves-early", "updater/resource.go",
+    "\t\tfor _, rv := range res.Versions {\n\t\t\trv.CurrentRelease = false\n\t\t}", "\t\tfor _, rv := range res.Versions {\n\t\t\trv.CurrentRelease = false\n\t\t\tif rv.VersionNumber == version {\n\t\t\t\tbreak\n\t\t\t}\n\t\t}", "C19-R7|updater.(*Resource).AddVersion / CurrentRelease set only after all versions were reset", comment="round-2 seed C19-b1")
+mut("C19", "r7-reset-conditional", "updater/resource.go",
+    "\t\tfor _, rv := range res.Versions {\n\t\t\trv.CurrentRelease = false\n\t\t}", "\t\tfor _, rv := range res.Versions {\n\t\t\tif rv.Available {\n\t\t\t\trv.CurrentRelease = false\n\t\t\t}\n\t\t}", "C19-R7|updater.(*Resource).AddVersion / CurrentRelease set only after all versions were reset")
